@@ -38,6 +38,7 @@ class Space:
     self.var_cols: list[int] = []
     # atoms: list of dicts(kind, var, arg PolyArr (1 element) , extra)
     self.atoms: list[dict] = []
+    self.atom_index: dict = {}
     # series mode
     self.series_var = None
     self.series_order = series_order
@@ -669,14 +670,13 @@ def atom_apply(kind: str, arg: PolyArr, extra=None) -> PolyArr:
       out_const[i] = fn(v)
       is_const_row[i] = True
       continue
-    # look for matching atom
+    # look for a matching atom: arguments equal up to a relative 1e-10 of the largest coefficient
+    # (terms below 1e-9 of the largest coefficient do not take part in the key)
+    big = np.abs(vals) >= 1e-9 * np.abs(vals).max()
+    key = (kind, extra, tuple(cols[big].tolist()))
     found = None
-    for a in sp.atoms:
-      if a['kind'] != kind or a['extra'] != extra or len(a['cols']) != len(cols):
-        continue
-      if not np.array_equal(a['cols'], cols):
-        continue
-      if np.all(np.abs(a['vals'] - vals) <= 1e-10 * np.maximum(np.abs(vals), 1e-300) + 1e-14 * np.abs(vals).max()):
+    for a in sp.atom_index.get(key, ()):
+      if np.all(np.abs(a['keyvals'] - vals[big]) <= 1e-10 * np.abs(vals).max()):
         found = a
         break
     if found is None:
@@ -689,9 +689,10 @@ def atom_apply(kind: str, arg: PolyArr, extra=None) -> PolyArr:
       name = f'{kind}#{len(sp.atoms)}'
       col = sp.new_vars(name, 1, alo, ahi)[0]
       var_index = sp.nvars - 1
-      found = dict(kind=kind, extra=extra, cols=cols.copy(), vals=vals.copy(), arg=one,
+      found = dict(kind=kind, extra=extra, cols=cols.copy(), vals=vals.copy(), arg=one, keyvals=vals[big].copy(),
                    var=var_index, col=col, fn=fn, arg_lo=lo, arg_hi=hi)
       sp.atoms.append(found)
+      sp.atom_index.setdefault(key, []).append(found)
       if kind in ('recip',) and lo <= 0 <= hi:
         sp.obligations.append(dict(kind='nonzero', atom=name, lo=lo, hi=hi))
       if kind in ('log', 'rsqrt', 'pow') and lo <= 0:
